@@ -65,6 +65,7 @@ static struct {
 } stats;
 
 static void parse_registered(struct iauth_request *req, int from_ircd);
+static void parse_disconnect(struct iauth_request *req);
 
 /** Sends a message to the IRCD related to \a req.
  *
@@ -509,6 +510,13 @@ static void parse_new_client(int id, int argc, char *argv[])
 
     if (argc < 5)
         return;
+
+    /* An id that is announced again has lost its previous holder; let
+     * the modules release what they keep for that one.
+     */
+    req = set_find(iauth_reqs, &id);
+    if (req)
+        parse_disconnect(req);
 
     /* Allocate, populate and index the request descriptor. */
     stats.n_req_allocs++;
